@@ -36,6 +36,14 @@ def generate(rnd, tier, index=0):
     removed = []
     ops = gen.gen_history(rnd, cfg, spare, 1, regime, rnd.randint(4, 24), refit=0.1, max_rows=24,
                           sched=lambda r, op: kernel.Sched.draw(r) if op["op"] in ("fit", "partial_fit") else None)
+    if rnd.random() < 0.04 and regime == "exact":
+        # "exactly the rewards observed for that arm": a large batch of 0/1 (or small non-negative) rewards handed over as
+        # a narrow unsigned / signed byte array - every value fits the dtype, the per-arm counts and sums do not
+        rk = "binary" if lp[0] == "ThompsonSampling" else rnd.choice(["binary", "nonneg"])
+        big = {"op": rnd.choice(["fit", "partial_fit"]), "container": rnd.choice(["ndarray_u8", "ndarray_i8"]),
+               "rows": gen.gen_rows(rnd, cfg["arms"], rnd.randint(300, 600), 1, "exact", rk, False),
+               "sched": kernel.Sched.draw(rnd)}
+        ops.insert(rnd.randint(1, len(ops)), big)
     # re-adding removed labels: gen_history returns removed arms to the spare pool, so they do come back
     out = []
     for op in ops:
@@ -113,7 +121,7 @@ def execute(case, ctx):
         elif kind in ("fit", "partial_fit"):
             rows = P.valid_rows(op["rows"])
             first = not P.fitted
-            r = P.apply(op, sched=op.get("sched"))
+            r = P.apply(op, sched=op.get("sched"), container=op.get("container", "list"))
             if r[0] == "exc":
                 ctx.violate("valid-training-raised", step, {"exc": r[1]})
                 return
